@@ -389,6 +389,10 @@ pub struct Compiler<'a, E: quiver_core::effects::Effect> {
     // through it then rely on the statically-known callee (imports/direct calls carry it).
     // Both survive across module compilation (same Compiler instance).
     case_tables: HashMap<usize, usize>,
+    // Callable types that more than one kind of function shares - dispatch functions with
+    // differing tables, or a dispatch function and a function without a table. A value of such
+    // a type may be any of them, so no table may be chosen by type.
+    ambiguous_case_types: HashSet<usize>,
 
     // Span of the term currently being compiled, so an error can be located in source.
     // Only set when a recorder is interested (LSP); harmless otherwise.
@@ -505,6 +509,7 @@ impl<'a, E: quiver_core::effects::Effect> Compiler<'a, E> {
             last_uncovered: None,
             fn_case_tables: HashMap::new(),
             case_tables: HashMap::new(),
+            ambiguous_case_types: HashSet::new(),
             current_span: None,
             recorder,
             _phantom: std::marker::PhantomData,
@@ -1671,10 +1676,15 @@ impl<'a, E: quiver_core::effects::Effect> Compiler<'a, E> {
         // *different* table, which makes the type ambiguous (dropped from `case_tables`). Two
         // functions with an identical table (e.g. `num.add`/`num.sub`) keep the type unambiguous.
         if let Some(branches) = dispatch_table {
-            let canonical = match self.case_tables.get(&callable_type_id).copied() {
-                None => Some(function_index),
-                Some(existing_fn) => (self.fn_case_tables.get(&existing_fn) == Some(&branches))
+            let canonical = if self.ambiguous_case_types.contains(&callable_type_id) {
+                None
+            } else {
+                match self.case_tables.get(&callable_type_id).copied() {
+                    None => Some(function_index),
+                    Some(existing_fn) => (self.fn_case_tables.get(&existing_fn)
+                        == Some(&branches))
                     .then_some(existing_fn),
+                }
             };
             match canonical {
                 Some(fi) => {
@@ -1682,9 +1692,15 @@ impl<'a, E: quiver_core::effects::Effect> Compiler<'a, E> {
                 }
                 None => {
                     self.case_tables.remove(&callable_type_id);
+                    self.ambiguous_case_types.insert(callable_type_id);
                 }
             }
             self.fn_case_tables.insert(function_index, branches);
+        } else {
+            // A function without a case table shares this callable type: a value of the type
+            // need not be a dispatch function, so its result cannot be specialised by type.
+            self.case_tables.remove(&callable_type_id);
+            self.ambiguous_case_types.insert(callable_type_id);
         }
 
         self.codegen.instructions = saved_instructions;
